@@ -33,6 +33,7 @@ def draw_config(rng: random.Random, prop: str) -> dict:
     cfg['species_mode'] = rng.choice(['first_k', 'gaps', 'tail', 'single', 'all', 'per_field',
                                       'per_traj'])
     cfg['unset_p'] = rng.choice([0.0, 0.3, 1.0])
+    cfg['new_species_p'] = rng.choice([0.0, 0.0, 0.15]) if prop in ('C03', 'C10') else 0.0
     w = {
         'create': 2, 'add': 10, 'get': 8, 'iter': 1.5, 'len': 1, 'lookup': 2, 'sync': 1.5,
         'close': 2, 'open_r': 2, 'open_a': 2, 'fsck': 0.5, 'add_invalid': 0, 'merge': 0,
@@ -190,6 +191,10 @@ class Gen:
                 # different subsets per field, union still the universe
                 for f in sf[1:]:
                     sp[f] = sorted(rng.sample(uni, rng.randint(1, len(uni))), key=G.SPECIES_NAMES.index)
+            outside = [x for x in G.SPECIES_NAMES if x not in uni]
+            if not first_of_file and outside and rng.random() < self.cfg.get('new_species_p', 0):
+                f = rng.choice(sf)
+                sp[f] = sorted(sp[f] + [rng.choice(outside)], key=G.SPECIES_NAMES.index)
             spec['species'] = sp
         if self.cfg['unset_p'] and rng.random() < self.cfg['unset_p']:
             opt = [f for f in G.optional_fields(fs) if f != 'flight_id']
